@@ -77,7 +77,7 @@ package biscuit
 //@ ensures refuses_sealed: !hasNextSecret(b.container.Proof) ==> err != nil
 //@ ensures wf: err == nil ==> wfToken(res) && len(res.blocks) == len(b.blocks)
 //@ ensures content_kept: err == nil && contentWF(b) ==> contentWF(res)
-//@ ensures keyid[C16]: err == nil ==> optEq(res.container.RootKeyId, b.container.RootKeyId)
+//@ ensures keyid[C16 C09]: err == nil ==> optEq(res.container.RootKeyId, b.container.RootKeyId)
 //@ ensures envelope_same: err == nil ==> res.container.Authority == b.container.Authority && len(res.container.Blocks) == len(b.container.Blocks) && (forall i int :: { res.container.Blocks[i] } 0 <= i && i < len(b.container.Blocks) ==> res.container.Blocks[i] == b.container.Blocks[i])
 //@ ensures sealed: err == nil ==> hasFinalSig(res.container.Proof) && !hasNextSecret(res.container.Proof)
 //@ ensures seal_signs[C09]: err == nil && *lastSB(b.container).NextKey.Algorithm >= 0 ==> bview(finalSig(res.container.Proof)) == edSign(privOfSeed(bview(nextSecret(b.container.Proof))), sealPayload(lastSB(b.container)))
@@ -709,8 +709,10 @@ package biscuit
 //@ loop 6 invariant more: len(*v.world.facts) < v.world.runLimits.maxFacts
 //@ loop 6 invariant syms: tableGrown(*v.symbols, old(*v.symbols)) && tableGrownInLoop(*v.symbols, pre(*v.symbols))
 //@ loop 6 invariant facts: factsGrown(*v.world.facts, old(*v.world.facts))
+//@ loop 6 invariant decided_by_the_policy_just_tried[C04]: policyMatched ==> #i >= 1 && ((v.policies[#i-1].Kind == PolicyKindAllow && policyResult == nil) || (v.policies[#i-1].Kind == PolicyKindDeny && policyResult == ErrPolicyDenied))
 //@ loop 6 invariant verdict: (policyResult == nil ==> (exists p int :: { v.policies[p] } 0 <= p && p < #i && v.policies[p].Kind == PolicyKindAllow)) && (!policyMatched ==> policyResult != nil)
 //@ loop 7 modifies *v.symbols, spare(*v.symbols)
+//@ loop 7 invariant still_undecided[C04]: !policyMatched
 //@ loop 7 invariant wf: authWF(v)
 //@ loop 7 invariant content: contentWF(v.biscuit)
 //@ loop 7 invariant fapart: factsApart(v)
